@@ -8,7 +8,9 @@ package motion
 // snapshot handed to the motion sink at StartRecording.
 
 import (
+	"encoding/binary"
 	"fmt"
+	"github.com/TheCacophonyProject/lepton3"
 	"testing"
 	"time"
 
@@ -194,6 +196,29 @@ func TestVerif_C15(t *testing.T) {
 			nf = cfg.PreviewFrames + rng.Range(3, 8) // the threshold follows the background once the preview frames are over
 		}
 		stream := c15Stream(rng, cfg, nf, level)
+		// every fifth stream: the parser rejects some frames (a zero pixel inside the border), among
+		// them the very first frame after each FFC period; a rejected frame changes nothing - the
+		// first frame that IS accepted after the period re-seeds the background
+		withBad := idx%5 == 2 && cfg.W < 100
+		if withBad {
+			was := false
+			for i := range stream {
+				f := &stream[i]
+				if f.Reset {
+					was = false
+					continue
+				}
+				if was && !f.affected() {
+					f.Bad, was = true, false
+					continue
+				}
+				if vMix(uint64(idx)*7919+uint64(i))%23 == 0 {
+					f.Bad = true
+					continue
+				}
+				was = f.affected()
+			}
+		}
 		ffcStated := 0
 		if idx%3 == 1 {
 			// the telemetry's FFC state word says "running" a frame or two before the reported FFC
@@ -214,7 +239,20 @@ func TestVerif_C15(t *testing.T) {
 			flag := &motionFlag{}
 			mc := cfg.motionConfig()
 			rc := &recorder.RecorderConfig{MinSecs: 1, MaxSecs: 2, PreviewSecs: preview, Window: window.Window{NoWindow: true}}
-			mp := NewMotionProcessor(nil, &mc, rc, &config.Location{}, flag, sink, cfg.cam(), nil, new(recorder.NoWriteRecorder))
+			var parse func([]byte, *cptvframe.Frame, int) error
+			if withBad {
+				// raw "frames" carry an index into the stream; the parser fills in picture and
+				// telemetry as the camera's parser does and rejects the marked ones
+				parse = func(raw []byte, out *cptvframe.Frame, edge int) error {
+					k := int(binary.LittleEndian.Uint32(raw))
+					stream[k].toFrame(out, k)
+					if stream[k].Bad {
+						return &lepton3.BadFrameErr{Cause: errScriptedBad}
+					}
+					return nil
+				}
+			}
+			mp := NewMotionProcessor(parse, &mc, rc, &config.Location{}, flag, sink, cfg.cam(), nil, new(recorder.NoWriteRecorder))
 			d := mp.motionDetector
 			if d.previewFrames != cfg.PreviewFrames {
 				panic(fmt.Sprintf("harness: previewFrames %d != %d", d.previewFrames, cfg.PreviewFrames))
@@ -236,8 +274,26 @@ func TestVerif_C15(t *testing.T) {
 				}
 				prevThresh := int(d.tempThresh)
 				starts := len(sink.starts)
-				f.toFrame(frame, i)
-				mp.ProcessFrame(frame)
+				if withBad {
+					var raw [4]byte
+					binary.LittleEndian.PutUint32(raw[:], uint32(i))
+					err := mp.Process(raw[:])
+					if _, isBad := err.(*lepton3.BadFrameErr); isBad != f.Bad {
+						badAt = i
+						c.Violation("bad-frame-classification", "", fmt.Sprintf("frame %d: parser rejected it = %v, Process returned %v", i, f.Bad, err))
+						return
+					}
+					if f.Bad {
+						c.Count("rejected_frames", 1)
+						if prevAffected && !f.affected() {
+							c.Count("rejected_frames_right_after_an_ffc_period", 1)
+						}
+						continue
+					}
+				} else {
+					f.toFrame(frame, i)
+					mp.ProcessFrame(frame)
+				}
 				c.Count("frames", 1)
 				aff := f.affected()
 				if aff {
